@@ -295,6 +295,27 @@ def answerApi (p : Params) (fn : String) (a : List String) : Option String :=
       let pk ← B pk; let phm ← B phm; let sig ← B sig; let ctx ← optB ctx; let ph ← phOf ph
       if ¬ p.mldsa then none else
       some (showChk boolStr (do let pk ← from_bytes p.pkBytes pk; mldsa_prehash_verify p pk phm sig ctx ph))
+  -- the Keypair entry points: first argument = Keypair::to_bytes (sk ‖ pk)
+  | "Keypair::sign", [kp, msg, ctx, hedged, tape] => do
+      let kp ← B kp; let msg ← B msg; let ctx ← optB ctx; let tape ← B tape
+      if p.mldsa then
+        some (showChk (fun r => showSig r.1) (kp_mldsa_sign p SIGN_FUEL kp msg ctx (hedged == "1") tape))
+      else
+        some (showChk showSig (kp_dil_sign p SIGN_FUEL kp msg))
+  | "Keypair::prehash_sign", [kp, _msg, ctx, hedged, ph, tape, phm] => do
+      let kp ← B kp; let phm ← B phm; let ctx ← optB ctx; let tape ← B tape; let ph ← phOf ph
+      if ¬ p.mldsa then none else
+      some (showChk (fun r => showSig r.1) (kp_mldsa_prehash_sign p SIGN_FUEL kp phm ctx (hedged == "1") ph tape))
+  | "Keypair::verify", [kp, msg, sig, ctx] => do
+      let kp ← B kp; let msg ← B msg; let sig ← B sig; let ctx ← optB ctx
+      if p.mldsa then
+        some (showChk boolStr (kp_mldsa_verify p kp msg sig ctx))
+      else
+        some (showChk boolStr (kp_dil_verify p kp msg sig))
+  | "Keypair::prehash_verify", [kp, _msg, sig, ctx, ph, phm] => do
+      let kp ← B kp; let phm ← B phm; let sig ← B sig; let ctx ← optB ctx; let ph ← phOf ph
+      if ¬ p.mldsa then none else
+      some (showChk boolStr (kp_mldsa_prehash_verify p kp phm sig ctx ph))
   | _, _ => none
 
 def apiName (s : String) : Option Params :=
